@@ -149,7 +149,7 @@ def parse_type(s) -> T:
         return TBool()
     if s == "float":
         return TReal()
-    if s in ("str", "key"):
+    if s in ("str", "key", "method"):
         return TStr()
     if s == "none":
         return TNone()
@@ -555,7 +555,12 @@ class Flattener:
             for x, y in zip(t.ts, v.items):
                 out += self._facts(x, y)
         elif isinstance(t, TMap):
+            # T-card on a symbolic dictionary: the size is >= 0, zero exactly when no key is present
             out.append(((), v.card >= 0, None))
+            q = z3.Int(fresh_name("mq"))
+            q2 = z3.Int(fresh_name("mq"))
+            out.append(((), z3.Implies(v.card > 0, z3.Exists([q], v.dom[q])), None))
+            out.append(((), z3.Implies(v.card == 0, z3.ForAll([q2], z3.Not(v.dom[q2]), patterns=[v.dom[q2]])), None))
         return out
 
     def _has_facts(self, t):
